@@ -85,9 +85,13 @@ def run_paths(an: Analysis):
             kws = {kw.arg: rules.value_text(path, index, kw.value) for kw in node.keywords}
             rp.start = kws.get('start')
             rp.initial = 'other'
-            if len(node.args) == 1 and isinstance(node.args[0], ast.Starred) and \
-                    set(kws) == {'start'}:
-                value = rules.value_expr(path, index, node.args[0].value)
+            if len(node.args) == 1 and set(kws) == {'start'}:
+                if isinstance(node.args[0], ast.Starred):
+                    value = rules.value_expr(path, index, node.args[0].value)
+                else:
+                    # Loop(x, start=...) is Loop(*(x,), start=...)
+                    value = ast.Tuple(elts=[rules.value_expr(path, index, node.args[0])],
+                                      ctx=ast.Load())
                 if isinstance(value, ast.Name) and value.id == acts:
                     rp.initial = 'activities'
                 elif isinstance(value, ast.Tuple) and len(value.elts) == 1 and \
